@@ -13,7 +13,7 @@ import sys
 
 VERIF = os.path.dirname(os.path.dirname(os.path.abspath(__file__)))
 CATALOGUE = os.path.join(VERIF, 'mutants', 'catalogue.json')
-SLOTS = 6
+SLOTS = 8
 
 
 def _one(entry, pid, slot, base_keys):
